@@ -17,7 +17,22 @@ fn machinery(msg: &str) -> ! {
     std::process::exit(2)
 }
 
+extern "C" {
+    fn mallopt(param: i32, value: i32) -> i32;
+}
+
+/// glibc malloc returns big blocks to the kernel eagerly; the checks allocate and free
+/// multi-100-KB token strings millions of times, which then costs more system than user time.
+fn tune_allocator() {
+    unsafe {
+        mallopt(-1, 1 << 30); // M_TRIM_THRESHOLD
+        mallopt(-3, 1 << 30); // M_MMAP_THRESHOLD
+        mallopt(-2, 64 << 20); // M_TOP_PAD
+    }
+}
+
 pub fn main_entry(hooks: bool) {
+    tune_allocator();
     let args: Vec<String> = std::env::args().skip(1).collect();
     if args.is_empty() {
         machinery("usage: mc check <ID> [--tier quick|thorough] | mc replay <file> | mc conformance");
@@ -29,6 +44,7 @@ pub fn main_entry(hooks: bool) {
             Ok(c) => println!("conformance ok: {c:?}"),
             Err(e) => machinery(&e),
         },
+        "observe" => checks::c06::observe_main(),
         "gen-polkadot" => {
             // debugging aid: hash of de-duplicated + generated Polkadot module
             let mut r = run::polkadot_registry();
